@@ -188,8 +188,39 @@ def _shard(cfg_w):
 _chain = kcommon.make_chain_run(__name__, "observe", extra_ops=kcommon.unused_ops)
 
 
+def _holes(_):
+    """Files with an unused slot between live blocks (other software writes those): every accessor
+    must still report exactly the live blocks."""
+    from .. import env
+
+    acc = core.Acc()
+    tr = kcommon.env_rotate()
+    directory = env.scratch_dir("c11h")
+    for n in (3, 14):
+        for hole in (0, 1):
+            t1, t2 = tr[0][0], tr[1][0]
+            cfg = kdriver.Config(f"hole{hole}-N{n}", n, [kdriver.known_record(t1, 0), kdriver.known_record(t2, 1)], tr[0], 1, hole_at=hole)
+            sess = kdriver.Session(cfg, directory)
+            sess.model = kdriver.Model.from_config(cfg)
+            acc.n["states"] += 1
+            acc.n["evaluations"] += 1
+            acc.n["nontrivial"] += 1
+            acc.n["transitions"] += 1
+            try:
+                observe(sess, (), None, None, True, "", None, acc)
+                acc.n["traces"] += 1
+                acc.outcomes["hole-file:accessors-agree"] += 1
+            except core.Violation as v:
+                acc.violation(v.clause, v.sig + f":hole{hole}", {"config": cfg.to_witness(), "base": None, "ops": [], "history": []}, v.detail)
+            finally:
+                sess.close()
+    acc.sample({"foreign files": "unused slot before / between live blocks, N in {3, 14}: full accessor sweep"}, 1)
+    return acc
+
+
 def run(tier):
     acc = kcommon.run_configs(__name__, tier)
+    acc.merge(core.pmap(__name__, "_holes", [0]))
     # straight-line histories in ONE context with reads in between (read-side hidden state)
     acc.merge(core.pmap(__name__, "_chain", [c.to_witness() for c in kcommon.chain_configs(tier)]))
     return acc
